@@ -1,4 +1,5 @@
 #!/bin/bash
+export VERIF_EVIDENCE_DIR=/verif/build/evidence-scratch
 # dev aid: which quick checks raise an alarm for which seeded change. usage: matrix.sh [seed ...]   (writes /verif/build/matrix.tsv)
 cd /verif
 seeds=${@:-$(ls seeded)}
